@@ -315,6 +315,13 @@ def _payload_class(repo, m, body: list[ast.stmt], var: str | None) -> tuple[str 
                 d = repo.dotted_of(m, v.args[0])
                 ci = repo.class_by_dotted(d) if d else None
                 return (ci.name if ci else ast.unparse(v.args[0])), v
+            if isinstance(v, ast.Lambda) and isinstance(v.body, ast.Call):
+                # `lambda group: Class(group, ...)` — a factory like partial(Class, ...): forwards its parameters to the class
+                d = repo.dotted_of(m, v.body.func)
+                ci = repo.class_by_dotted(d) if d else None
+                params = [a.arg for a in v.args.args]
+                if ci is not None and [ast.unparse(a) for a in v.body.args] == params:
+                    return ci.name, v.body
             d = repo.dotted_of(m, v)
             ci = repo.class_by_dotted(d) if d else None
             if ci is not None:
